@@ -636,6 +636,14 @@ func (r *Run) runHandlerOps(ctx context.Context, stream grpc.ServerStream) {
 			case <-time.After(60 * time.Millisecond):
 			}
 			r.rec(Event{Who: "h", Op: "gate:" + op.Gate})
+		case "sleepctx": // works for a while (Gate holds the duration) unless the context ends first
+			d, _ := time.ParseDuration(op.Gate)
+			r.rec(Event{Who: "h", Op: "sleepctx", Call: true})
+			select {
+			case <-time.After(d):
+			case <-ctx.Done():
+			}
+			r.rec(Event{Who: "h", Op: "sleepctx", Err: ctx.Err()})
 		case "gatectx": // gate that a context end also opens
 			r.rec(Event{Who: "h", Op: "gate:" + op.Gate, Call: true})
 			select {
